@@ -83,7 +83,10 @@ impl MetadataClient for LocalMetadataClient {
             let mut bucket = start_bucket;
             while bucket <= end_bucket {
                 time_index.entry(bucket).or_default().push(path.to_string());
-                bucket += Self::NANOS_PER_HOUR;
+                bucket = match bucket.checked_add(Self::NANOS_PER_HOUR) {
+                    Some(next) => next,
+                    None => break, // last representable hour bucket reached
+                };
             }
         }
 
@@ -152,7 +155,10 @@ impl MetadataClient for LocalMetadataClient {
                     if let Some(paths) = time_index.get_mut(&bucket) {
                         paths.retain(|p| p != path);
                     }
-                    bucket += Self::NANOS_PER_HOUR;
+                    bucket = match bucket.checked_add(Self::NANOS_PER_HOUR) {
+                        Some(next) => next,
+                        None => break, // last representable hour bucket reached
+                    };
                 }
             }
         }
